@@ -138,7 +138,7 @@ func (m *MTU) marshal() ([]byte, error) {
 
 func (m *MTU) unmarshal(b []byte) error {
 	// t := b[0]
-	l := int(b[1]*8) - 2 // Exclude type and length fields from value's length.
+	l := int(b[1])*8 - 2 // Exclude type and length fields from value's length.
 	if l != 6 {
 		return fmt.Errorf("ndp: unexpected mtu option length: %d", l)
 	}
